@@ -22,6 +22,8 @@ func buildProfile() (lifes, forms, variants []int) {
 		return all, []int{kit.IdPlain, kit.IdResObj2}, []int{0, 1, 9, 23, 24, 25}
 	case 5: // multi-member interface groups whose members have dependencies of their own (n=4)
 		return []int{kit.LSingleton}, []int{kit.IdPlain, kit.IdAsGroup}, []int{0, 1, 8, 11}
+	case 6: // a group with several members in front of / behind a plain dependency (n=4)
+		return []int{kit.LSingleton, kit.LScoped}, []int{kit.IdPlain, kit.IdAsGroup}, []int{0, 28, 29}
 	case 3: // small: plain edges, optional edge (for n=3 order permutations)
 		return all, []int{kit.IdPlain}, []int{0, 1, 6, 11}
 	}
